@@ -16,8 +16,8 @@ from extract import ExtractionError
 OPERATORS = "prqlc/prqlc/src/sql/operators.rs"
 STD_SQL = "prqlc/prqlc/src/sql/std.sql.prql"
 
-LABELS = ["TP1", "TP1d", "TP2", "TP2s", "TP3"]
-FUNCTIONS = ["hole_operand_slice", "result_strength_slice"]
+LABELS = ["TP1", "TP1d", "TP2", "TP2s", "TP3", "TP4", "TP4v"]
+FUNCTIONS = ["hole_operand_slice", "result_strength_slice", "operator_lookup_slice"]
 RLIMIT = 60
 
 ASSUMED = [
@@ -26,8 +26,8 @@ ASSUMED = [
              "str::parse::<i32>().ok() is the uninterpreted as_i32(); format!(\"COALESCE({text}, {default})\") is coalesce_text(); into_source() is the identity on the text",
      "keys": ["fn translate_operand", "spec fn operand_src", "spec fn as_i32", "fn parse_i32_opt", "spec fn coalesce_text", "fn fmt_coalesce", "struct ExprOrSource", "fn into_source",
               "fn option_and_then_parse"]},
-    {"what": "find_operator_impl (lookup of the definition and its annotations in the parsed std.sql.prql) is not under contract; the table rows below read "
-             "the annotations from the file with tools/sqlstd.py instead", "keys": []},
+    {"what": "find_operator_impl (lookup of the definition and its annotations in the parsed std.sql.prql) is not under contract: the uninterpreted operator_impl(name, dialect); the table "
+             "rows below read the annotations from the file with tools/sqlstd.py instead; error text is opaque", "keys": ["fn find_operator_impl", "spec fn operator_impl", "fn opaque_error"]},
 ]
 TRUSTED = [
     "oracle (C01): SUM over no rows is 0, ANY over no rows is FALSE, ALL over no rows is TRUE - so their SQL aggregates (NULL on empty input) are wrapped in "
@@ -141,6 +141,24 @@ def build(X):
               "{\n    let mut text = text0;\n    " + t.text + "\n    (text, binding_strength)\n}\n")
     t.rewrites.append({"rule": "slice", "what": "statements from `let mut binding_strength` up to the final `Ok(SourceExpr {..})`, wrapped as fn result_strength_slice"})
 
+    # ---- the lookup of the operator's definition: an operator that has no definition for the dialect is an error, not a panic
+    lk = X.slice(OPERATORS, "translate_operator", "let (func_def, binding_strength, window_frame, coalesce) =", "let parent_binding_strength", name="operator_lookup_slice", include_end=False)
+    lk.rewrite_re("R5", r"Error::new_simple\(format!\((?:[^()]|\((?:[^()]|\([^()]*\))*\))*\)\)", "opaque_error()", count=None, why="error construction with a formatted text is opaque")
+    lk.desugar_option_closures()
+    lk.text = ("pub type FuncRef = OpaqueT;\n#[verifier::external_body] pub fn opaque_error() -> Error { unimplemented!() }\n"
+               "#[derive(Clone, Copy)] pub struct DialectId(pub u8);\npub uninterp spec fn operator_impl(name: Seq<char>, dialect: DialectId) -> Option<(FuncRef, Option<i32>, bool, Option<String>)>;\n"
+               "#[verifier::external_body]\npub fn find_operator_impl(name: &String, dialect: DialectId) -> (r: Option<(FuncRef, Option<i32>, bool, Option<String>)>)\n"
+               "    ensures r == operator_impl(name@, dialect),\n{ unimplemented!() }\n"
+               "pub struct LookupCtx { pub dialect_enum: DialectId }\n"
+               "pub fn operator_lookup_slice(name: String, ctx: &LookupCtx) -> (r: Result<(FuncRef, Option<i32>, bool, Option<String>), Error>)\n"
+               "    ensures\n"
+               "        // C12 / C07: an operator without a definition for the dialect (std.sql.prql has none, in the dialect's module or generic) is a compile error\n"
+               "        r is Ok <==> operator_impl(name@, ctx.dialect_enum) is Some, // @TP4\n"
+               "        r is Ok ==> Some(r->Ok_0) == operator_impl(name@, ctx.dialect_enum), // @TP4v\n"
+               "{\n    " + lk.text + "\n    Ok((func_def, binding_strength, window_frame, coalesce))\n}\n")
+    lk.rewrites.append({"rule": "slice", "what": "the statement `let (func_def, binding_strength, window_frame, coalesce) = find_operator_impl(..)..;` of translate_operator wrapped as fn operator_lookup_slice; "
+                        "find_operator_impl is external: the uninterpreted operator_impl(name, dialect)"})
+
     rows = table_rows(X)
     tbl = ["""
 // ---------------------------------------------------------------- table obligations (std.sql.prql, read on every run)
@@ -151,7 +169,7 @@ pub open spec fn count_counts_rows(body: Seq<char>, has_default: bool) -> bool {
     for (lab, claim, src) in rows:
         fn = "row_" + re.sub(r"[^A-Za-z0-9]", "_", lab)
         tbl.append("// %s\nproof fn %s() ensures %s, // @%s\n{ reveal_strlit(\"COUNT(*)\"); reveal_strlit(\"0\"); reveal_strlit(\"TRUE\"); reveal_strlit(\"FALSE\"); }\n" % (src, fn, claim, lab))
-    return PRELUDE + h.text + "\n" + t.text + "\n" + "\n".join(tbl) + "\n} // verus!\nfn main() {}\n"
+    return PRELUDE + h.text + "\n" + t.text + "\n" + lk.text + "\n" + "\n".join(tbl) + "\n} // verus!\nfn main() {}\n"
 
 
 # ----------------------------------------------------------------------------- replay / sweep on the real compiler + SQLite
@@ -178,8 +196,27 @@ def _try(prql, rows_sql, want, lab):
     return rec
 
 
+# operators that some dialects have no template for: every (dialect, program) must give SQL or an error - never a panic
+_NO_TEMPLATE = ['from t\nselect {d = (a | date.to_text "%Y")}\n', 'from t\nselect {d = (a | text.contains "x")}\n', 'from t\nfilter (a ~= "x")\n',
+                'from t\nselect {d = math.pow a 2, e = a // 2}\n', 'from (read_csv "x.csv")\n']
+
+
+def _try_no_template(target, prql):
+    import replaylib
+    ok, out = replaylib.compile_prql(prql, target)
+    return {"obligation": "operator_tpl.TP4", "input": "target %s\n%s" % (target, prql), "expected": "SQL or a compile error", "observed": out[:300], "failing": out.startswith("PANIC"),
+            "replay_kind": "no_template", "target": target, "prql": prql}
+
+
 def sweep():
-    return [_try(*c) for c in _CASES]
+    import subprocess
+    import replaylib
+    out = [_try(*c) for c in _CASES]
+    names = [l.strip() for l in subprocess.run([replaylib.prqlc_bin(), "list-targets"], capture_output=True, text=True).stdout.split("\n") if l.strip().startswith("sql.")]
+    for t in names:
+        for prql in _NO_TEMPLATE:
+            out.append(_try_no_template(t, prql))
+    return out
 
 
 def replay(failure):
@@ -190,4 +227,6 @@ def replay(failure):
 
 
 def rerun(doc):
+    if doc.get("replay_kind") == "no_template":
+        return _try_no_template(doc["target"], doc["prql"])
     return _try(doc["input"], doc["rows_sql"], [tuple(x) for x in doc["want"]], doc["label"])
